@@ -308,6 +308,11 @@ func (e *Env) TLC(r TLCRun) (*TLCResult, error) {
 	e.mu.Unlock()
 	if !r.KeepOut && res.OK {
 		os.RemoveAll(filepath.Join(dir, "md"))
+		if os.Getenv("VERIF_KEEP") == "" {
+			for name := range r.Files {
+				os.Remove(filepath.Join(dir, name)) // traces can be large
+			}
+		}
 	}
 	return res, nil
 }
@@ -502,7 +507,9 @@ func (e *Env) Finish() int {
 		}
 	}
 	if code == 0 {
-		os.RemoveAll(e.Out)
+		if os.Getenv("VERIF_KEEP") == "" {
+			os.RemoveAll(e.Out)
+		}
 		fmt.Printf("OK property=%s tier=%s seed=%d states=%d transitions=%d traces=%d evaluations=%d distinct=%d wall=%.1fs\n",
 			e.ID, e.Tier, e.Seed, e.Cov.States, e.Cov.Transitions, e.Cov.Traces, e.Cov.Evaluations, len(e.Cov.Distinct), time.Since(e.Start).Seconds())
 	} else if code == 2 {
